@@ -13,7 +13,7 @@ cp $WT/SEED/notes.txt $OUT/notes.txt 2>/dev/null
 R=/tmp/st_repo_$NAME; V=/tmp/st_verif_$NAME
 git -C /repo worktree add -f --detach $R HEAD -q || exit 2
 git -C $R apply $OUT/patch.diff || { echo "patch does not apply"; git -C /repo worktree remove --force $R; exit 2; }
-rsync -a --exclude work --exclude .git /verif/ $V/
+rsync -a --exclude work --exclude .git --exclude "replay/*.json" /verif/ $V/; mkdir -p $V/replay
 PYTHONPATH=$R /venv/bin/python $OUT/demo.py > $OUT/demo_with.txt 2>&1; DW=$?
 TESTS=$(cd $R && PYTHONPATH=$R /venv/bin/python -m pytest -q -p no:cacheprovider -n 4 nixio 2>&1 | tail -1)
 RES=""
